@@ -289,11 +289,12 @@ impl<'a> Parser<'a> {
             "null" => Ok(Value::Null),
             "true" => Ok(Value::Bool(true)),
             "false" => Ok(Value::Bool(false)),
-            number => Ok(Value::Number(
+            number if is_json_number(number) => Ok(Value::Number(
                 number
                     .parse()
                     .map_err(|_| self.traceback(ParseError::InvalidToken))?,
             )),
+            _ => Err(self.traceback(ParseError::InvalidToken)),
         }
     }
 
@@ -335,6 +336,56 @@ fn quiet_assert(condition: bool, error: TracebackError) -> Result<(), TracebackE
     } else {
         Err(error)
     }
+}
+
+/// Check whether the string is a number according to the specification (RFC 8259 section 6):
+///   an optional minus sign, an integer part without leading zeros, an optional fraction and an optional exponent.
+fn is_json_number(s: &str) -> bool {
+    let mut chars = s.chars().peekable();
+
+    if chars.peek() == Some(&'-') {
+        chars.next();
+    }
+
+    match chars.next() {
+        Some('0') => (),
+        Some('1'..='9') => {
+            while chars.peek().map_or(false, char::is_ascii_digit) {
+                chars.next();
+            }
+        }
+        _ => return false,
+    }
+
+    if chars.peek() == Some(&'.') {
+        chars.next();
+
+        if !chars.next().map_or(false, |c| c.is_ascii_digit()) {
+            return false;
+        }
+
+        while chars.peek().map_or(false, char::is_ascii_digit) {
+            chars.next();
+        }
+    }
+
+    if matches!(chars.peek(), Some(&'e') | Some(&'E')) {
+        chars.next();
+
+        if matches!(chars.peek(), Some(&'+') | Some(&'-')) {
+            chars.next();
+        }
+
+        if !chars.next().map_or(false, |c| c.is_ascii_digit()) {
+            return false;
+        }
+
+        while chars.peek().map_or(false, char::is_ascii_digit) {
+            chars.next();
+        }
+    }
+
+    chars.next().is_none()
 }
 
 /// Check whether a character is whitespace according to the specification.
